@@ -354,3 +354,24 @@ def map_histories(nhist, seed, start_id, maxlen=10):
             events.append(ev)
             eid += 1
     return events
+
+
+def sim_histories(behaviours, start_id, embname="dy", poolname="ascii"):
+    """replays TLC-simulated behaviours of MC_Tg (map mode) step by step on ONE live Textgrid each"""
+    emb, pool = T.EMBS[embname], T.POOLS[poolname]
+    textgrid = T.praatio()[0]
+    events, eid, drift = [], start_id, 0
+    for h, states in enumerate(behaviours):
+        live = textgrid.Textgrid()
+        for step, st in enumerate(states):
+            o = st["out"]
+            if o.get("op", "none") == "none":
+                continue
+            vec = {"op": o["op"], "args": o["args"], "pre": o["pre"], "argt": o["argt"], "argtg": o["argtg"]}
+            ev, _ = run_vector(vec, emb, pool, eid, recv=live)
+            ev["hist"], ev["step"] = h, step
+            if (ev["st"], ev["post"]) != (o["st"], o["post"]):
+                drift += 1
+            events.append(ev)
+            eid += 1
+    return events, drift
